@@ -68,10 +68,10 @@ impl Transcript {
         self.counter = Felt::ZERO;
     }
 //@end
-//@repo crates/transcript/src/transcript.rs fn Transcript::read_uint64_from_prover props=C01,C02,C08
+//@repo crates/transcript/src/transcript.rs fn Transcript::read_uint64_from_prover props=C01,C02,C08,C09
     pub fn read_uint64_from_prover(&mut self, val: u64)
         ensures
-            final(self).digest@ == ts_absorb1(old(self).digest@, val as nat), // [C01,C02,C08:absorb-u64]
+            final(self).digest@ == ts_absorb1(old(self).digest@, val as nat), // [C01,C02,C08,C09:absorb-u64]
             final(self).counter@ == 0,
     {
         self.read_felt_from_prover(&Felt::from(val))
